@@ -4,11 +4,13 @@ import gens
 
 RULE = ("statements = those the pre-processor hands to the grammar for every DDL string found in /repo/tests, "
         "1-3 word-level mutations of them, unsupported families (queries, DML, views, functions, session commands), "
-        "filtered lines; each run with silent=True and silent=False. non-trivial = distinct statement text on which "
+        "filtered lines, statements made unparseable by leading junk (so that the silent run recovers and the grammar actions run on the rest); "
+        "each run with silent=True and silent=False. non-trivial = distinct statement text on which "
         "the implementation's token stream has >= 3 tokens")
 PARTIAL = ["that a *supported* fragment never raises under silent=False is carried by the fragment theorems of C17/C01 (their "
            "statements are about the loud and the silent driver alike) and explored here on harvested DDL",
-           "t_error (a character outside the lexer alphabet) ignores `silent`: known finding D8"]
+           "t_error (a character outside the lexer alphabet) ignored `silent` (D8, repaired by e648612); exceptions of grammar actions after a "
+           "recovered syntax error escaped the silent run (repaired by b0266a0)"]
 ASSUMES = ["the LR driver model (Model/LR.v) mirrors yacc.LRParser.parseopt_notrack: checked by trace correspondence on every run",
            "PLY's literal recovery loop is modelled in its simplified form (valid because no production mentions `error`)"]
 
@@ -153,6 +155,14 @@ def run(ctx, res):
         scripts.append(("filtered", "%s\n%s;\n%s\n" % (gens.simple_table(rng, "t1"), x, gens.simple_table(rng, "t2"))))
     for s in muts[: (2000 if ctx.thorough else 300)]:
         scripts.append(("mutated", s + ";\n"))
+    # a statement made unparseable by leading junk: the silent run gets past the syntax error (PLY's recovery) and the grammar
+    # actions then work on what is left of it — whatever they do, nothing may escape run(); the loud run raises DDLParserError
+    for s in (stmts if ctx.thorough else stmts[::2]):
+        scripts.append(("recovered", rng.choice(["select select ", "zz ", ") ", "grant x "]) + s + ";\n"))
+    # directed: after the recovery a grammar action meets a table without the row format it expects
+    for junk in ("select select ", "zz ", ") "):
+        for tail in ("ROW FORMAT 'c' WITH SERDEPROPERTIES ('k'='v')", "WITH SERDEPROPERTIES ('k'='v')", "ROW FORMAT , 'my_serde' WITH SERDEPROPERTIES ( 'key1'='value1' )"):
+            scripts.append(("recovered", "%sCREATE TABLE x (a STRING) %s;\n%s\n" % (junk, tail, gens.simple_table(rng, "t_after"))))
     A = ctx.impl.map([{"op": "run", "ddl": d, "ctor": {"silent": True}} for _, d in scripts])
     B = ctx.impl.map([{"op": "run", "ddl": d, "ctor": {"silent": False}} for _, d in scripts])
     res.evaluations += 2 * len(scripts)
